@@ -434,6 +434,15 @@ def grid_cases(hs, gb, edges):
         if ev['g'] != ag or ev['h'] != ah:
             raise MachineryError('a built grid does not project back to TLC\'s abstract grid: %r' % (e,))
         cases.append({'variant': 'mutant', 'mut': e['mut'].get('m'), 'exp': e['exp'], 'ag': ag, 'ah': ah, 'ev': ev})
+        if any(c['k'] == 'null' for x in (ag, ah) if 'rows' in x for r in x['rows'] for c in r):
+            # the same pair with null cells left out of the row dicts (sparse rows: an absent key is a null cell)
+            g2 = gb.build(ag, omit_null=True) if 'rows' in ag else g
+            h2 = gb.build(ah, omit_null=True) if 'rows' in ah else h
+            ev2 = observe_grid(gb, g2, h2)
+            if ev2['g'] != ag or ev2['h'] != ah:
+                raise MachineryError('a sparse grid does not project back to TLC\'s abstract grid: %r' % (e,))
+            cases.append({'variant': 'mutant_sparse', 'mut': e['mut'].get('m'), 'exp': e['exp'], 'ag': ag, 'ah': ah,
+                          'ev': ev2})
     for key in sorted(bases):
         ag = bases[key]
         g = gb.build(ag)
@@ -781,8 +790,9 @@ def replay(path):
         elif c['engine'] == 'singleton':
             doc = dict(empty, traces=[observe_singletons(hs)])
         else:
-            g = gb.build(c['g'])
-            mk = {'mutant': lambda: gb.build(c['h']), 'self': lambda: g,
+            g = gb.build(c['g'], omit_null=(c['variant'] == 'mutant_sparse'))
+            mk = {'mutant': lambda: gb.build(c['h']), 'mutant_sparse': lambda: gb.build(c['h'], omit_null=True),
+                  'self': lambda: g,
                   'twin': lambda: gb.build(c['g'], omit_null=True), 'deepcopy': lambda: copy.deepcopy(g),
                   'zinc': lambda: hs.parse(hs.dump(g, mode=hs.MODE_ZINC), mode=hs.MODE_ZINC),
                   'json': lambda: hs.parse(hs.dump(g, mode=hs.MODE_JSON), mode=hs.MODE_JSON)}[c['variant']]
